@@ -34,6 +34,7 @@ import (
 	"testing/synctest"
 	"time"
 
+	"github.com/pion/dtls/v3/internal/ciphersuite"
 	dtlsstate "github.com/pion/dtls/v3/internal/state"
 	"github.com/pion/dtls/v3/pkg/protocol"
 	"github.com/pion/dtls/v3/pkg/protocol/handshake"
@@ -1263,6 +1264,105 @@ func r13RunSession(t *testing.T, v r13Variant, rng *vRand, w, writes, kus int, d
 	return []r13Case{s.result(v, scen, "client"), s.result(v, scen, "server")}
 }
 
+
+// record a step that consists of state operations the harness performed itself on `to` (no datagram)
+func (s *r13Sim) opStep(to string, ops []r13Op, tag string) {
+	sd := s.sides[to]
+	synctest.Wait()
+	st := r13Snapshot(sd.peer.Conn)
+	obs := r13Obs{Delivered: []string{}, Alerts: [][2]int{}, ErrText: []string{}, Closed: st.Closed}
+	sd.rd.mu.Lock()
+	for ; sd.rd.seen < len(sd.rd.evs); sd.rd.seen++ {
+		ev := sd.rd.evs[sd.rd.seen]
+		switch {
+		case ev.eof:
+		case ev.err != "":
+			obs.Errs++
+			obs.ErrText = append(obs.ErrText, ev.err)
+		default:
+			obs.Delivered = append(obs.Delivered, vHex(ev.payload))
+		}
+	}
+	sd.rd.mu.Unlock()
+	if !reflect.DeepEqual(st, sd.last) {
+		cp := st
+		obs.State = &cp
+	}
+	sd.last = st
+	sd.steps = append(sd.steps, r13Step{Tag: tag, Auth: 2, Pl: -1, Ops: ops, Obs: obs})
+}
+
+// states the protocol does not reach on its own schedule, set up in-package: a read generation installed
+// before the remote epoch moves (the window between Install and SetRemoteEpoch in handleKeyUpdate), and
+// record numbers at the 48-bit limit of the re-marshalled header
+func r13RunPoke(t *testing.T, v r13Variant, rng *vRand, recv string) []r13Case {
+	t.Helper()
+	s := r13Start(t, v, rng, 64)
+	defer s.lab.close()
+	send := r13Other(recv)
+	rc, sc := s.lab.peer(recv).Conn, s.lab.peer(send).Conn
+	for i := 0; i < 2; i++ {
+		s.write(send, r13Payload(rng, send, i))
+		s.pump(func() bool { return false }, nil, 50*time.Millisecond)
+	}
+	inject := func(c r13Craft, name string, body []byte) {
+		if body != nil {
+			s.sides[send].written = append(s.sides[send].written, body)
+			c.Body = body
+		}
+		num := -1
+		if c.Type == 23 {
+			num = s.payloadNum(send, c.Body)
+		}
+		s.deliver(recv, s.craft(send, c), "craft:"+name, 1, num)
+	}
+	// (a) generation installed, remote epoch not yet moved
+	rst := r13St(rc)
+	re := int(rst.RemoteEpoch())
+	secret, ok := r13WriteSecret(sc, re+1)
+	if !ok {
+		t.Fatalf("rec13: no next secret")
+	}
+	cs, ok := rst.CipherSuite.(ciphersuite.CipherSuiteTLS13)
+	if !ok {
+		t.Fatalf("rec13: no TLS 1.3 suite")
+	}
+	prot, err := cs.NewRecordProtection(secret)
+	if err != nil {
+		t.Fatalf("rec13: %v", err)
+	}
+	cur, _ := rst.TrafficKeys.CurrentRead()
+	rst.TrafficKeys.Install(nil, &dtlsstate.TrafficGeneration{Epoch: uint16(re + 1), Generation: cur.Generation + 1, Secret: secret, Protection: prot})
+	s.opStep(recv, []r13Op{{Op: "install", E: re + 1}}, "poke:install-next")
+	inject(r13Craft{Epoch: re + 1, Seq: 0, SBit: true, LBit: true, Type: 23}, "early-next-gen", r13Payload(rng, send, 800))
+	inject(r13Craft{Epoch: re, Seq: 50, SBit: true, LBit: true, Type: 23}, "old-gen-after-install", r13Payload(rng, send, 801))
+	rst.SetRemoteEpoch(uint16(re + 1))
+	_ = rc.handleQueuedPackets(context.Background())
+	s.opStep(recv, []r13Op{{Op: "remote", E: re + 1}, {Op: "drain"}}, "poke:remote-epoch+drain")
+	inject(r13Craft{Epoch: re + 1, Seq: 1, SBit: true, LBit: true, Type: 23}, "next-gen-now-current", r13Payload(rng, send, 802))
+	first := s.result(v, "poke/epoch-gate", recv)
+	// (b) record numbers around 2^48: a new trace from a poked state
+	e := re + 1
+	for len(rst.RemoteSequenceNumber) <= e {
+		rst.RemoteSequenceNumber = append(rst.RemoteSequenceNumber, 0)
+	}
+	rst.RemoteSequenceNumber[e] = 1<<48 - 10
+	sd := s.sides[recv]
+	synctest.Wait()
+	sd.init = r13Snapshot(rc)
+	sd.last = sd.init
+	sd.steps = nil
+	inject(r13Craft{Epoch: e, Seq: 1<<48 - 3, SBit: true, LBit: true, Type: 23}, "seq-2^48-3", r13Payload(rng, send, 810))
+	inject(r13Craft{Epoch: e, Seq: 1<<48 + 3, SBit: true, LBit: true, Type: 23}, "seq-2^48+3", r13Payload(rng, send, 811))
+	inject(r13Craft{Epoch: e, Seq: 1 << 48, SBit: true, LBit: true, Type: 23}, "seq-2^48", r13Payload(rng, send, 812))
+	inject(r13Craft{Epoch: e, Seq: 1<<48 - 1, SBit: true, LBit: true, Type: 23}, "seq-2^48-1", r13Payload(rng, send, 813))
+	inject(r13Craft{Epoch: e, Seq: 1<<48 - 1, SBit: true, LBit: true, Type: 23, Body: s.sides[send].written[len(s.sides[send].written)-1]}, "seq-2^48-1-replay", nil)
+	inject(r13Craft{Epoch: e, Seq: 1<<48 + 3, SBit: true, LBit: true, Type: 21, Body: []byte{2, 40}}, "alert-above-2^48", nil)
+	second := s.result(v, "poke/seq48", recv)
+
+	return []r13Case{first, second}
+}
+
 func TestVerifRec13E2E(t *testing.T) {
 	out := newVOut(t)
 	rng := newVRand(vSeed() ^ 0x13e2e)
@@ -1287,6 +1387,17 @@ func TestVerifRec13E2E(t *testing.T) {
 			for _, c := range res {
 				out.emit(c)
 			}
+		}
+	}
+	for i, v := range variants {
+		if !vIsThorough() && i%2 == 1 {
+			continue
+		}
+		v := v
+		var res []r13Case
+		vBubble(t, func(t *testing.T) { res = r13RunPoke(t, v, rng, []string{"client", "server"}[i%2]) })
+		for _, c := range res {
+			out.emit(c)
 		}
 	}
 	sessions := 10
